@@ -84,3 +84,5 @@ package reader
 //@   requires defaultOptions != nil
 //@   assigns \nothing
 //@   ensures [C18:new:freshInstance] result != nil && fresh(result) && result.Options != nil && fresh(result.Options)
+//@   ensures [C18:new:freshStorage] len(opts) == 0 && typeis(result.Storage, *storage.FileSystem) ==> fresh(as(result.Storage, *storage.FileSystem))
+//@   invariant L0: len(opts) == 0 && typeis(r.Storage, *storage.FileSystem) ==> fresh(as(r.Storage, *storage.FileSystem))
